@@ -78,13 +78,18 @@ CAUGHT = {
  'C18r2-m2': ('./check C18', 'dispatch/stranded-writer (EventConnDispatch.tla, added after this seed escaped)'),
  'C19r2-m1': ('./check C19', 'walk: bytes lost by a Read straddling two messages (also ./check C06)'),
  'C19r2-m2': ('./check C19', 'conc: concurrent Close of one conn releases two session references (added after this seed escaped)'),
+ 'C05r3-m1': ('./check C05', 'staged backlog/5000-elements-in-one-polling-round (round 3, added after this seed escaped: the change only acts once one polling round has consumed >= 4096 elements): stranded'),
+ 'C09r3-m1': ('./check C09', 'not-returned-after-close in the mixed shm + heap fallback configuration, first run (./check C06 reports SPEC-DRIFT of module LinkedBuffer: free count 39 vs 40)'),
+ 'C11r3-m1': ('./check C11', 'blocked-forever: must-send-timeout-waiting-result / -waiting-room (waitForSend still blocked 10 s after ConnectionWriteTimeout), first run'),
+ 'C14r3-m1': ('./check C14', 'severed-connection pass (round 3, added after this seed escaped; ./check C18 had reported SPEC-DRIFT of EventConnDispatch only): survivor-not-closed when the peer dies with unread bytes in its socket (ECONNRESET)'),
+ 'C19r3-m1': ('./check C06', 'bytes: fallback payload aliases the connection read buffer (same site as C06r2-m2, also C07/C13); ./check C19 itself does not put a conn on the socket-fallback path'),
  'C19-m1': ('./check C19', 'late-stream probe (added after this seed escaped)'),
  'C19-m2': ('./check C07', 'order across transports; C19 itself does not stage the fallback/refill interleaving'),
  'C20-m1': ('./check C20', 'stranded (fine-grained random interleavings, added after this seed escaped)'),
  'C20-m2': ('./check C20', 'offered-after-close'),
 }
 for out in sorted(glob.glob('/tmp/seed/C*-out/m*')):
-    pid = re.search(r'/(C\d+(?:r2)?)-out/(m\d)', out)
+    pid = re.search(r'/(C\d+(?:r\d)?)-out/(m\d)', out)
     name = '%s-%s' % (pid.group(1), pid.group(2))
     if not os.path.exists(os.path.join(out, 'patch.diff')):
         continue
